@@ -40,6 +40,20 @@ Proof.
   rewrite !adv_str_app. rewrite IH, Hx. destruct k; reflexivity.
 Qed.
 
+Lemma pos_sub : forall (layk : nat -> layout) xs,
+    Forall PosOk xs ->
+    forall k prev q,
+      snd (loc_sub (fun k cx x q => loc repaired (layk k) cx x q) k prev xs q)
+      = adv_str (txt_sub (fun k cx x => txt (layk k) cx x) k prev xs) q.
+Proof.
+  induction 1 as [|x xs Hx Hxs IH]; intros k prev q; [reflexivity|]. cbn [loc_sub txt_sub].
+  specialize (Hx (layk k) (factor_ctx prev x) q).
+  destruct (loc repaired (layk k) (factor_ctx prev x) x q) as [x' q1]. cbn [snd] in Hx.
+  specialize (IH (S k) (factor_open (factor_ctx prev x) x) q1).
+  destruct (loc_sub _ (S k) (factor_open (factor_ctx prev x) x) xs q1) as [rs q2]. cbn [snd] in *.
+  rewrite adv_str_app. rewrite IH, Hx. reflexivity.
+Qed.
+
 Definition PosQ (e : expr) : Prop :=
   PosOk e /\ match e with Sequence fs _ => Forall PosOk fs | _ => True end.
 
@@ -84,9 +98,8 @@ Proof.
     all: try (specialize (IH (sub lay 0) 5%nat pb);
               match goal with |- context [loc repaired ?b 5 ?x ?d] => destruct (loc repaired b 5 x d) as [r' p1] end;
               cbn [snd] in *; exact IH).
-    pose proof (pos_list (fun k => sub (sub lay 0) k) 5 no_sep children IHfs 0%nat pb) as X. cbv beta in X.
-    change (fun (k : nat) (q : pos) => adv_str (no_sep k) q) with (fun (_ : nat) (q : pos) => q) in X.
-    destruct (loc_list _ _ 0 children pb) as [cs' p1]. cbn [snd] in *. exact X.
+    pose proof (pos_sub (fun k => sub (sub lay 0) k) children IHfs 0%nat false pb) as X. cbv beta in X.
+    destruct (loc_sub _ 0 false children pb) as [cs' p1]. cbn [snd] in *. exact X.
 Qed.
 
 (** The end position of a printed expression is the nom_locate position after its text. *)
